@@ -1,5 +1,7 @@
 package sim
 
+import "testing"
+
 // Registry of checks: per property, how Plans are generated and which oracle
 // judges them.
 
@@ -13,6 +15,8 @@ type CheckDef struct {
 	// SweepKinds lists, for a seam call of the given verb, the fault kinds to place on it.
 	SweepKinds func(p *Plan, step int, verb string) []FaultSpec
 	Race       bool // needs the -race binary
+	// Exec replaces the cluster executor (checks whose Plan is not a history of Helm operations).
+	Exec func(t *testing.T, p *Plan) *RunResult
 }
 
 var Checks = map[string]*CheckDef{}
@@ -27,5 +31,9 @@ func init() {
 	register(&CheckDef{ID: "C07", Gen: genC07, Oracle: oracleC07})
 	register(&CheckDef{ID: "C08", Gen: genC08, Oracle: oracleC08})
 	register(&CheckDef{ID: "C09", Gen: genC09, Oracle: oracleC09, Race: true})
+	register(&CheckDef{ID: "C10", Gen: genC10, Exec: ExecuteC10})
+	register(&CheckDef{ID: "C13", Gen: genC13, Oracle: oracleC13})
+	register(&CheckDef{ID: "C14", Gen: genC14, Oracle: oracleC14})
+	register(&CheckDef{ID: "C20", Gen: genC20, Oracle: oracleC20})
 	register(&CheckDef{ID: "C12", Gen: genC12, Oracle: oracleC12, SweepBase: sweepBaseC12, SweepKinds: sweepKindsC12})
 }
